@@ -320,7 +320,7 @@ func checkBundle(t *vk.T, files []protoreflect.FileDescriptor, coord, label stri
 			continue
 		}
 		a, b := d.file(f), d.file(g)
-		if coord == "repo-proto" {
+		if coord == "repo-proto" || coord == "handwritten" {
 			// hand-written files may interleave fields, oneofs and nested types in ways the
 			// printer regroups; declaration order is compared for compiled j5s only
 			a, b = dropOrder(a), dropOrder(b)
@@ -469,6 +469,21 @@ func run(r *vk.Runner) {
 		})
 	}
 
+	// (b0) hand-written shapes the repository's own files do not contain
+	r.Family("handwritten-shapes")
+	for _, hw := range handwritten() {
+		hw := hw
+		r.Do("handwritten:"+hw.name, func(t *vk.T) {
+			t.Coord("handwritten|" + hw.name)
+			texts := map[string]string{"hw/v1/t.proto": hw.text}
+			fds, err := gj5s.ReparseOne(texts, "hw/v1/t.proto")
+			if err != nil {
+				panic("harness: hand-written shape " + hw.name + " does not parse: " + err.Error())
+			}
+			checkBundle(t, fds, "handwritten", hw.name, texts)
+		})
+	}
+
 	// (b) the repository's hand-written protos
 	r.Family("repo-protos")
 	roots, _ := os.ReadDir("/repo/proto")
@@ -511,5 +526,25 @@ func run(r *vk.Runner) {
 			}
 			checkBundle(t, fds, "option-values|host="+oc.host, oc.id, nil)
 		})
+	}
+}
+
+type hwShape struct{ name, text string }
+
+// handwritten: small proto3 files exercising comment layouts, labels and literal forms.
+func handwritten() []hwShape {
+	head := "syntax = \"proto3\";\n\npackage hw.v1;\n\n"
+	return []hwShape{
+		{"comment-trailing-blank-lines", head + "// Foo is a thing\n//\n//\nmessage Foo {\n  // the name\n  //\n  string name = 1;\n}\n"},
+		{"comment-leading-blank-lines", head + "//\n//\n// Foo after blanks\nmessage Foo {\n  //\n  // name after a blank\n  string name = 1;\n}\n"},
+		{"comment-inner-blank-lines", head + "// first paragraph\n//\n// second paragraph\n//\n//\n// third after two blanks\nmessage Foo {\n  string name = 1;\n}\n"},
+		{"comment-only-blank", head + "//\nmessage Foo {\n  //\n  //\n  string name = 1;\n}\n"},
+		{"comment-indented-and-wide", head + "//   indented text\n//\ttab text\n// trailing spaces   \nmessage Foo {\n  string name = 1;\n}\n"},
+		{"comment-on-enum-values-and-methods", head + "// E doc\n//\nenum E {\n  // zero\n  //\n  E_UNSPECIFIED = 0;\n  // one\n  E_ONE = 1;\n}\n\nmessage Req {}\nmessage Res {}\n\n// S doc\n//\nservice S {\n  // M doc\n  //\n  rpc M(Req) returns (Res);\n}\n"},
+		{"optional-on-every-kind", head + "message Sub {}\nenum E {\n  E_UNSPECIFIED = 0;\n}\nmessage Foo {\n  optional string a = 1;\n  optional Sub b = 2;\n  optional E c = 3;\n  optional bytes d = 4;\n  Sub e = 5;\n  oneof pick {\n    string f = 6;\n    Sub g = 7;\n  }\n  optional int64 h = 8;\n}\n"},
+		{"json-names", head + "message Foo {\n  string by_user_id = 1 [json_name = \"byUserID\"];\n  string plain_name = 2;\n  string x = 3 [json_name = \"X\"];\n}\n"},
+		{"nested-and-shadowing", head + "message Status {}\nmessage Foo {\n  enum Status {\n    STATUS_UNSPECIFIED = 0;\n  }\n  message Inner {\n    Status s = 1;\n    hw.v1.Status top = 2;\n  }\n  Status nested = 1;\n  hw.v1.Status top = 2;\n  Inner inner = 3;\n}\n"},
+		// built-in options (deprecated = true) and reserved statements are outside the property's quantifier (compiled
+		// j5s files and the repository's own protos use neither): the printer spells the former as an extension and drops the latter
 	}
 }
